@@ -283,7 +283,9 @@ CHEAP = ["key_backspace", "key_forward", "key_back", "key_up", "key_down", "key_
 PROPS["C01"] = {
     "claim": "Cli-level one-step induction: from ANY state satisfying CliInv (N=3,H=3 quick; N=4 thorough) no key other than Enter enters the handler; Enter enters it exactly once iff the line has a token and is not a help request, with exactly the reference tokens (name + classified arguments), leaves an empty line, records the text in the history and prints one fresh prompt on a new row; CliInv is re-established, so the claim covers edit histories of any length",
     "assumptions": CLI_ASSUME,
-    "harnesses": cli_keys("cli_steps", CHEAP, tags=["C01"], timeout=900, mem=4) + [
+    # "the line as it stood after every insertion, deletion, cursor move, recall and completion":
+    # the editing keys' ideal-editor / history assertions (tags C05, C10) are part of C01's claim
+    "harnesses": cli_keys("cli_steps", CHEAP, tags=["C01", "C05", "C10"], timeout=900, mem=4) + [
     ] + enter_set("cli_steps::key_enter", ["C01"]) + [
     ] + routing_set(["C01", "C12"]) + [
         H("cli_steps::api_build", tags=["C01"], bounds="CliBuilder::build() with each of the three prompts"),
